@@ -97,6 +97,8 @@ pub enum EchoMutation {
 pub enum UserKind {
     /// READ of these classes (bit0..2 = class 1..3, bit3 = class 0)
     ReadClasses(u8),
+    /// `read_with_handler`: the response goes to a handler supplied with the request instead of the association's
+    ReadCustom(u8),
     /// commands: (group 12 or 41 var, index, 16-bit index?) in up to 3 headers
     Command {
         sbo: bool,
@@ -1426,6 +1428,16 @@ pub fn spawn_user(
         let (ok, outcome) = match kind {
             UserKind::ReadClasses(mask) => {
                 match h.read(ReadRequest::class_scan(classes_of(mask))).await {
+                    Ok(()) => (true, "Ok".to_string()),
+                    Err(e) => (false, format!("{:?}", e)),
+                }
+            }
+            UserKind::ReadCustom(mask) => {
+                let handler = crate::verif::nodes::master::custom_reader(rec.clone(), h.address().raw_value());
+                match h
+                    .read_with_handler(ReadRequest::class_scan(classes_of(mask)), handler)
+                    .await
+                {
                     Ok(()) => (true, "Ok".to_string()),
                     Err(e) => (false, format!("{:?}", e)),
                 }
